@@ -41,8 +41,7 @@ def verify_one(diff):
             return name, False, ['patch does not apply: ' + out[-300:]]
         rc, out = sh('git diff --stat | tail -1', cwd=wt)
         msgs.append(out.strip())
-        rc, out = sh('cp include/ffsm2/machine.hpp /tmp/m-%d.hpp && (cd tools && python3 -W ignore join.py >/dev/null) && cmp include/ffsm2/machine.hpp /tmp/m-%d.hpp; r=$?; rm -f /tmp/m-%d.hpp; exit $r'
-                     % ((os.getpid(),) * 3), cwd=wt)
+        rc, out = sh('cp include/ffsm2/machine.hpp machine.shipped && (cd tools && python3 -W ignore join.py >/dev/null) && cmp include/ffsm2/machine.hpp machine.shipped', cwd=wt)
         if rc:
             ok = False
             msgs.append('single header differs from the regenerated sources')
